@@ -32,6 +32,8 @@ def set_unit(tu):
     the move-nulling slot, the monitor's reference (or pointer) to that slot."""
     DYN_G.clear()
     DYN_CONTAINER.clear()
+    ATOMIC.clear()
+    ATOMIC.add(lib.died_field(tu))
     try:
         from rules import C03
         for leaf in C03.roles(tu).values():
